@@ -135,15 +135,16 @@ func c30Draw(rt *rapid.T) c30Case {
 // ---------------------------------------------------------------- run
 
 type c30Run struct {
-	ctx     *vk.Ctx
-	twin    bool
-	db      dbm.DB
-	cfg     c30Cfg
-	tree    *iavl.MutableTree
-	work    *OMap
-	saved   *VMap
-	hashes  map[int64][]byte // hash recorded when the version was saved (retained versions only)
-	unsaved bool             // Set/Remove was called since the last save/rollback/reopen
+	ctx      *vk.Ctx
+	twin     bool
+	db       dbm.DB
+	cfg      c30Cfg
+	tree     *iavl.MutableTree
+	work     *OMap
+	saved    *VMap
+	hashes   map[int64][]byte // hash recorded when the version was saved (retained versions only)
+	diverged bool             // a known finding left this run with another set of versions than its twin
+	unsaved  bool             // Set/Remove was called since the last save/rollback/reopen
 	// on-disk fast index bookkeeping: the live-state version recorded with it (-1: never built)
 	// and whether versions were saved/overwritten since then with fast storage switched off
 	fastRecorded int64
@@ -770,6 +771,7 @@ func (r *c30Run) run(c *c30Case, cfg c30Cfg) error {
 				if av := r.tree.AvailableVersions(); errors.Is(err, iavl.ErrVersionDoesNotExist) && len(av) > 0 {
 					if _, isGhost := r.ghosts.Get(int64(av[0])); isGhost && r.ctx.Known("iavl-pruning-fails-after-restart-when-pruned-root-survives") {
 						r.class("known:iavl-pruning-fails-after-restart-when-pruned-root-survives")
+						r.diverged = true
 						break // nothing was deleted
 					}
 				}
@@ -925,6 +927,12 @@ func c30Exec(ctx *vk.Ctx, c c30Case) error {
 	b := &c30Run{ctx: ctx, twin: true, classes: map[string]bool{}}
 	if err := b.run(&c, c.Twin); err != nil {
 		return fmt.Errorf("twin run: %v", err)
+	}
+	if a.diverged || b.diverged {
+		// version selectors resolve against the retained versions, which now differ between
+		// the runs: the histories are no longer the same, so their hashes are not comparable
+		ctx.Class("twin-hash-comparison-skipped-after-known-pruning-failure")
+		b.log = a.log
 	}
 	if len(a.log) != len(b.log) {
 		return fmt.Errorf("the twin run saved %d versions, the first run %d", len(b.log), len(a.log))
